@@ -103,6 +103,10 @@ func C04(c *fw.Ctx) {
 		}
 		rep := ref.ValidateShape(v1)
 		c.Inc("schema_nodes", "validated", rep.Nodes)
+		c.Inc("schema_nodes", "examples_parsed_as_json", rep.Examples)
+		for k, n := range rep.BadExamples {
+			c.Inc("examples_that_are_not_json(observation)", k, n)
+		}
 		maxMuLock.Lock()
 		for k, n := range rep.NodeKinds {
 			kinds[k] += n
